@@ -10,7 +10,7 @@ from shadow import loader, engine as E, concretize as C, timeenv, aio, floats as
 from shadow.values import SymInt, SymSeq, bterm, b_and, b_not
 
 # =============================================================================== C17
-B_ACTIONS = ["start", "stop", "enter", "exit", "send", "occupy", "release", "cycle"]
+B_ACTIONS = ["start", "stop", "enter", "exit", "send", "occupy", "release", "cycle", "stop_other"]
 
 
 def valid_type1_datagram():
@@ -42,6 +42,7 @@ def run_c17(case, eng, res):
         w = aio.world()
         log = []
         br = bridge_mod.SwitcherBridge(lambda dev: log.append(dev), list(ports))
+        other = bridge_mod.SwitcherBridge(lambda dev: None, list(ports))  # a second, never started bridge over the same ports
         trace = []
         viol = []
         expected_running = False
@@ -85,6 +86,8 @@ def run_c17(case, eng, res):
                     w.outsiders.discard(port)
                 elif kind == "cycle":
                     w.cycle()
+                elif kind == "stop_other":
+                    aio.run(other.stop())
             except Exception as e:  # noqa: BLE001
                 raised = e
             trace.append((kind, port if kind in ("send", "occupy", "release") else None, type(raised).__name__ if raised else None))
@@ -114,7 +117,9 @@ def run_c17(case, eng, res):
                 want = 1 if port in before_bound else 0
                 if delivered != want:
                     viol.append("broadcast to port %d: %d callbacks, expected %d" % (port, delivered, want))
-            if raised is None and kind in ("start", "stop", "enter", "exit"):
+            if kind == "stop_other" and (raised is not None or mine != before_bound):
+                viol.append("stopping another, never started bridge changed this bridge's sockets (%s -> %s)" % (sorted(before_bound), sorted(mine)))
+            if raised is None and kind in ("start", "stop", "enter", "exit", "stop_other"):
                 if bool(br.is_running) != all(p in w.bound for p in ports):
                     viol.append("is_running=%r but listening on %s of %s" % (br.is_running, sorted(mine), list(ports)))
             if w.loop_errors:
